@@ -762,8 +762,9 @@ fn primitive<'s>(input: &mut &'s str) -> PResult<Option<BoundSet>, SemverParseEr
                     ..
                 },
             ) => BoundSet::at_least(Predicate::Including((major + 1, 0, 0).into())),
-            // `>*` admits nothing, `<=*` and `=*` admit everything
-            (GreaterThan, Partial { major: None, .. }) => {
+            // `>*` and `<*` admit nothing, `<=*` and `=*` admit everything
+            (GreaterThan, Partial { major: None, .. })
+            | (LessThan, Partial { major: None, .. }) => {
                 BoundSet::at_most(Predicate::Excluding((0, 0, 0, 0).into()))
             }
             (LessThanEquals, Partial { major: None, .. })
